@@ -91,6 +91,8 @@ struct Info {
     sigma: Vec<f64>,
     /// scale of what has been accumulated into `regret` (for the conditioning margin)
     scale: f64,
+    /// per action: sum of the magnitudes added to its regret (to recognise cancellation to zero)
+    mag: Vec<f64>,
 }
 
 #[derive(Debug, Clone)]
@@ -137,6 +139,7 @@ impl State<'_> {
             avg: vec![0.0; num],
             sigma: vec![1.0 / num as f64; num],
             scale: 0.0,
+            mag: vec![0.0; num],
         })
     }
 
@@ -223,9 +226,10 @@ fn walk_vanilla(node: &Tree, index: usize, p_chance: f64, reach: [f64; 2], st: &
             let cf = p_chance * reach[1 - *pl];
             let sign = if *pl == 0 { 1.0 } else { -1.0 };
             let info = st.info(*pl, name, acts.len());
-            for (reg, u) in info.regret.iter_mut().zip(utils.iter()) {
+            for (ind, (reg, u)) in info.regret.iter_mut().zip(utils.iter()).enumerate() {
                 *reg += sign * cf * (u - expected);
                 info.scale += (cf * u).abs() + (cf * expected).abs();
+                info.mag[ind] += (cf * (u - expected)).abs();
             }
             expected
         }
@@ -271,9 +275,10 @@ fn walk_external(node: &Tree, index: usize, upd: usize, st: &mut State, t: u64) 
                 }
                 let expected: f64 = utils.iter().zip(sigma.iter()).map(|(u, s)| u * s).sum();
                 let info = st.info(*pl, name, acts.len());
-                for (reg, u) in info.regret.iter_mut().zip(utils.iter()) {
+                for (ind, (reg, u)) in info.regret.iter_mut().zip(utils.iter()).enumerate() {
                     *reg += u - expected;
                     info.scale += u.abs() + expected.abs();
+                    info.mag[ind] += (u - expected).abs();
                 }
                 expected
             } else {
@@ -302,6 +307,12 @@ fn regret_match(info: &mut Info, w: f64, flags: &mut Flags) {
     let max = info.regret.iter().copied().fold(f64::NEG_INFINITY, f64::max);
     let margin = 1e-9 * info.scale;
     if info.scale > 0.0 && ((pos > 0.0 && pos <= margin) || (pos == 0.0 && max >= -margin)) {
+        flags.near_zero = true;
+    }
+    // one action's regret cancelled to (nearly) zero: its probability is 0 here and ~1e-17 in an
+    // implementation that rounds differently, which a scale-free regret matching further down the
+    // tree turns into a macroscopic difference
+    if info.regret.iter().zip(info.mag.iter()).any(|(r, m)| *m > 0.0 && r.abs() <= 1e-9 * m) {
         flags.near_zero = true;
     }
     let num = info.regret.len();
@@ -343,12 +354,18 @@ fn advance(st: &mut State, pl: usize, t: u64) -> f64 {
     for info in st.infos[pl].values_mut() {
         regret_match(info, w, &mut flags);
         let (dp, dn) = (discount_factor(t, a), discount_factor(t, b));
-        for r in info.regret.iter_mut() {
-            if *r > 0.0 {
-                *r *= dp;
+        for (r, m) in info.regret.iter_mut().zip(info.mag.iter_mut()) {
+            let factor = if *r > 0.0 {
+                dp
             } else if *r < 0.0 {
-                *r *= dn;
-            }
+                dn
+            } else {
+                1.0
+            };
+            *r *= factor;
+            // a regret forgotten completely (factor 0) is an exact zero in every implementation,
+            // not a cancellation
+            *m *= factor;
         }
         let max = info.regret.iter().copied().fold(0.0, f64::max);
         bound += 2.0 * max / t as f64;
